@@ -453,6 +453,20 @@ func probeDeepArrays() string {
 			}
 		}
 	}
+	// a list with an empty slot (a nil element): equality stays symmetric, and an empty slot equals only an empty slot
+	one, two := variants.VariantFromInteger(1), variants.VariantFromInteger(2)
+	withNil := variants.VariantFromArray([]*variants.Variant{one, nil})
+	withNil2 := variants.VariantFromArray([]*variants.Variant{one, nil})
+	full := variants.VariantFromArray([]*variants.Variant{one, two})
+	if withNil.Equals(full) != full.Equals(withNil) {
+		return "Equals is not symmetric between [1, <nil element>] and [1, 2]"
+	}
+	if withNil.Equals(full) || full.Equals(withNil) {
+		return "[1, <nil element>] equals [1, 2]"
+	}
+	if withNil.Equals(withNil2) != withNil2.Equals(withNil) {
+		return "Equals is not symmetric between two lists with a nil element"
+	}
 	for _, d := range []int{1, 2, 10, 31, 32, 33, 63, 64, 65, 66, 100, 129, 257, 600} {
 		a, b, c, e := build(d, 7), build(d, 7), build(d, 8), build(d+1, 7)
 		switch {
